@@ -130,6 +130,9 @@ func Alphabet(s *wire.Spec, fi int) []wire.Val {
 		if f.LenFrom != "" {
 			max := 255
 			o := []wire.Val{{B: counting(20)}, {B: []byte{}}, {B: []byte{0}}, {B: []byte{0xff, 0xfe}}, {B: counting(max)}}
+			if f.K == wire.B64 {
+				o = append(o, caseTwins()...)
+			}
 			for _, g := range s.Fields {
 				if g.Go == f.LenFrom && g.K == wire.Len16 {
 					o = append(o, wire.Val{B: counting(256)}, wire.Val{B: counting(1000)})
@@ -138,8 +141,12 @@ func Alphabet(s *wire.Spec, fi int) []wire.Val {
 			return o
 		}
 		// the long values sit around the sizes at which printers cut such fields into words (512-octet chunks)
-		return []wire.Val{{B: []byte{1, 2, 3}}, {B: []byte{}}, {B: []byte{0}}, {B: []byte{0xff}}, {B: bytes.Repeat([]byte{0xff}, 32)}, {B: counting(256)}, {B: counting(1)}, {B: counting(2)},
+		vs := []wire.Val{{B: []byte{1, 2, 3}}, {B: []byte{}}, {B: []byte{0}}, {B: []byte{0xff}}, {B: bytes.Repeat([]byte{0xff}, 32)}, {B: counting(256)}, {B: counting(1)}, {B: counting(2)},
 			{B: counting(511)}, {B: counting(512)}, {B: counting(513)}, {B: counting(1023)}, {B: counting(1024)}, {B: counting(1025)}, {B: counting(1536)}, {B: counting(2048)}}
+		if f.K == wire.B64 {
+			vs = append(vs, caseTwins()...)
+		}
+		return vs
 	case wire.A:
 		return []wire.Val{{B: []byte{192, 0, 2, 1}}, {B: []byte{0, 0, 0, 0}}, {B: []byte{255, 255, 255, 255}}}
 	case wire.AAAA:
@@ -343,4 +350,10 @@ func Max(s *wire.Spec) []wire.Val {
 	}
 	fix(s, vals)
 	return vals
+}
+
+// caseTwins: two different octet strings whose base64 spellings ("QUJDREVG" / "qujdrevg") differ only in letter
+// case — base64 text is case-sensitive, whoever compares it case-insensitively merges them.
+func caseTwins() []wire.Val {
+	return []wire.Val{{B: []byte("ABCDEF")}, {B: []byte{0xaa, 0xe8, 0xdd, 0xad, 0xeb, 0xe0}}}
 }
